@@ -21,8 +21,8 @@ RULE = (
     "simulated paths with generated collections (all five droplet classes, 1-3D, 1-8 "
     "amplitudes, None/0/positive widths, zero radii, empty collections and members, "
     "0-12 members, 101-120 in thorough; int/float/negative/irregular/numpy times; "
-    "heterogeneous members at a low rate). The fault-free history is executed, then "
-    "re-executed once for EVERY low-level fault point: (write op, k-th HDF5 write, kind "
+    "heterogeneous members at a low rate). Every history is executed fault-free; every 12th "
+    "history is then re-executed once for EVERY low-level fault point: (write op, k-th HDF5 write, kind "
     "in ENOSPC/EIO/ENOSPC-after-torn-prefix), EIO on truncate, and (read op, k-th "
     "readinto, EIO). An evaluation is one executed (history, fault point) pair; a run is "
     "non-trivial when at least one injected fault fired; distinct = distinct run digests."
@@ -41,8 +41,8 @@ REAL_VS_STUB = {
              "(in-memory bytes, fault plan)"],
 }
 TIERS = {
-    "quick": {"runs": 320, "budget_s": 60, "chunk": 4, "det_pairs": 20, "fresh": 3},
-    "thorough": {"runs": 16000, "budget_s": 900, "chunk": 8, "det_pairs": 256, "fresh": 16},
+    "quick": {"runs": 3840, "budget_s": 60, "chunk": 24, "det_pairs": 36, "fresh": 3},
+    "thorough": {"runs": 190000, "budget_s": 900, "chunk": 48, "det_pairs": 384, "fresh": 16},
 }
 
 WRITE_KINDS = ["enospc", "eio", "enospc_torn"]
@@ -70,7 +70,10 @@ def generate(streams: Streams, tier: str, index: int) -> dict:
                         "path": rng.randrange(n_paths), "info": rng.random() < 0.2})
     ops.append({"op": "read", "path": ops[-1]["path"] if ops[-1]["op"] == "write" else 0,
                 "as": "stored"})
-    return {"objects": objects, "n_paths": n_paths, "ops": ops, "enumerate": True,
+    # every 12th history gets the full fault enumeration; the others run fault-free only, which
+    # is ~100x cheaper and widens the coverage of the object space (classes, dimensions, mode
+    # counts, special values, collection shapes)
+    return {"objects": objects, "n_paths": n_paths, "ops": ops, "enumerate": index % 12 == 0,
             "fault": None, "max_faults": 120 if tier == "quick" else 900}
 
 
